@@ -166,6 +166,47 @@ def main():
                     ms.append(method(f"m{i}_{o[:3]}", [n], o, payload="one", data=("opt" if (data and o == "success") else None)))
                 mods.append(module(f"t{count}", ms))
                 count += 1
+    # rejected tables -> must-fail bins (thorough)
+    rej_dir = os.path.join(HERE, "..", "..", "corpus", "w-reply-tables-fail")
+    os.makedirs(os.path.join(rej_dir, "src", "bin"), exist_ok=True)
+    for f in os.listdir(os.path.join(rej_dir, "src", "bin")):
+        os.unlink(os.path.join(rej_dir, "src", "bin", f))
+    nrej = 0
+    for n_methods in (2, 3):
+        for assign in itertools.product([(n, o) for n in names for o in outcomes], repeat=n_methods):
+            per = {}
+            ok = True
+            for n, o in assign:
+                s_ = per.setdefault(n, [])
+                if o in s_ or "always" in s_ or (o == "always" and s_):
+                    ok = False
+                s_.append(o)
+            if ok or assign[0][0] != "na":
+                continue
+            ms = [method(f"m{i}_{o[:3]}", [n], o, payload="one") for i, (n, o) in enumerate(assign)]
+            body = module("t", ms)
+            desc = ", ".join(f"{n}:{o}" for n, o in assign)
+            src = HEADER.format(what=f"rejected reply table [{desc}]: a (name, outcome) pair is claimed twice or `always` is combined with another method").replace("//@ props: C07 C08 C09 C14", "//@ props: C18").replace("//@ expect: pass", "//@ expect: fail\n//@ index: no")
+            with open(os.path.join(rej_dir, "src", "bin", f"rej{nrej}.rs"), "w") as f:
+                f.write(src + body + "\nfn main() {}\n")
+            nrej += 1
+    with open(os.path.join(rej_dir, "Cargo.toml.in"), "w") as f:
+        f.write("""[package]
+name = "w-reply-tables-fail"
+version = "0.0.0"
+edition = "2021"
+
+[dependencies]
+@SYLVIA_DEP@
+@SERDE_DEP@
+@DEP:cosmwasm-std@
+@DEP:cosmwasm-schema@
+@DEP:schemars@
+@DEP:cw-utils@
+""")
+    with open(os.path.join(rej_dir, "TIER"), "w") as f:
+        f.write("thorough\n")
+    print("w-reply-tables-fail", nrej, "programs")
     write_pkg("w-reply-tables", "every accepted reply table with <=2 names, <=3 methods over {success,error,always}, every declaration order, data on success on/off", mods, tier="thorough")
 
 
